@@ -9,6 +9,8 @@ import (
 	"strings"
 
 	"golang.org/x/tools/go/ssa"
+
+	"verif/internal/an"
 )
 
 func init() {
@@ -77,6 +79,8 @@ func runC17(c *Ctx) {
 		return
 	}
 
+	c17Registry(c)
+
 	// --- keywords ----------------------------------------------------------------------------
 	c.R.Rule("keywords", "the literal table ranged over by templates.sanitizeKeywords contains every Go keyword (go/token)", 25)
 	fn := c.fn(modPath("codegen/templates"), "sanitizeKeywords")
@@ -134,6 +138,80 @@ func runC17(c *Ctx) {
 	sort.Strings(kws)
 	for _, k := range kws {
 		c.R.Check(have[k], "keyword:"+k, c.pos(glob.Pos()), "present in "+glob.Name(), "Go keyword "+strconv.Quote(k)+" missing from the table sanitizeKeywords consults: an argument named "+k+" generates code that does not parse")
+	}
+}
+
+// c17Registry: every name handed out by the model-name collision registry is recorded in every package-level map that the
+// collision test reads, before it is returned.
+func c17Registry(c *Ctx) {
+	c.R.Rule("registry-consistent", "in templates.goModelName every return of a newly built name is preceded on all paths by an update of each package-level map that its collision test (the nameExists closure) reads; only the cache-hit return is exempt", 3)
+	fn := c.fn(modPath("codegen/templates"), "goModelName")
+	if fn == nil {
+		return
+	}
+	// maps read by nested closures (collision test) through Range/Lookup on a global
+	read := map[*ssa.Global]bool{}
+	for _, cl := range fn.AnonFuncs {
+		for _, b := range cl.Blocks {
+			for _, in := range b.Instrs {
+				var m ssa.Value
+				switch x := in.(type) {
+				case *ssa.Range:
+					m = x.X
+				case *ssa.Lookup:
+					m = x.X
+				}
+				if m == nil {
+					continue
+				}
+				if g, ok := loadGlobal(m); ok {
+					if _, isMap := g.Type().(*types.Pointer).Elem().Underlying().(*types.Map); isMap {
+						read[g] = true
+					}
+				}
+			}
+		}
+	}
+	if len(read) == 0 {
+		c.R.Fail("unresolved anchor: goModelName's collision test reads no package-level map")
+		return
+	}
+	n := 0
+	for _, r := range an.Returns(fn) {
+		// cache hit: returns the value of a Lookup
+		hit := false
+		for _, d := range an.Defs(an.ReturnedValue(r, 0)) {
+			if ex, ok := d.(*ssa.Extract); ok {
+				if _, isL := ex.Tuple.(*ssa.Lookup); isL {
+					hit = true
+				}
+			}
+			if _, isL := d.(*ssa.Lookup); isL {
+				hit = true
+			}
+		}
+		if hit {
+			continue
+		}
+		n++
+		bad := ""
+		for g := range read {
+			ok := mustPassThrough(fn, r, func(in ssa.Instruction) bool {
+				mu, isMU := in.(*ssa.MapUpdate)
+				if !isMU {
+					return false
+				}
+				g2, isG := loadGlobal(mu.Map)
+				return isG && g2 == g
+			})
+			if !ok {
+				bad = "a new name is returned without being recorded in " + g.Name() + ", which the collision test reads: the same Go identifier can be handed out twice (duplicate declarations, generated models do not compile)"
+			}
+		}
+		c.R.Check(bad == "", "goModelName/return-recorded", c.ipos(r), sprintf("recorded in %d registry map(s) before returning", len(read)), bad)
+	}
+	if n < 3 {
+		c.R.Fail("registry-consistent examined only %d returns", n)
 	}
 }
 
